@@ -1,7 +1,210 @@
-//! C19 — not built yet (stub keeps the registry stable while modules are written in parallel).
+//! C19 — concurrent compilations do not interfere.
+//!
+//! Free-running stress with real parallelism (barrier start): K threads compile and run K
+//! programs at the same time; each job's artefacts must equal those of the same job run alone.
+//! (A harness-owned deterministic scheduler would need a scheduling-point hook inside the
+//! repository's interner lock; it was not built — see DESIGN.md, limits.)
 
-use crate::engine::case::Prop;
+use crate::engine::case::*;
+use crate::engine::panics;
+use crate::engine::rng::hash64;
+use crate::engine::tape::Gen;
+use crate::gens::prog::{self, Layout, PG};
+use crate::gens::textgen as tg;
+use crate::props::c01;
+use crate::runners::artefacts::compile_artefacts;
+use serde_json::{json, Value};
+use std::sync::{Arc, Barrier};
+
+pub struct C19;
 
 pub fn prop() -> Option<&'static dyn Prop> {
-    None
+    Some(&C19)
+}
+
+fn solo(src: &str, sched: bool) -> Result<String, String> {
+    panics::catch(|| compile_artefacts(src, sched, true).digest()).map_err(|p| p.signature())
+}
+
+/// run all jobs at once; returns per job Ok(digest) / Err(panic signature)
+fn together(jobs: &[(String, bool)], rounds: usize) -> Vec<Vec<Result<String, String>>> {
+    let mut all = vec![];
+    for _ in 0..rounds {
+        let barrier = Arc::new(Barrier::new(jobs.len()));
+        let handles: Vec<_> = jobs
+            .iter()
+            .cloned()
+            .map(|(src, sched)| {
+                let b = barrier.clone();
+                std::thread::Builder::new()
+                    .stack_size(16 * 1024 * 1024)
+                    .spawn(move || {
+                        b.wait();
+                        panics::catch(|| compile_artefacts(&src, sched, true).digest()).map_err(|p| p.signature())
+                    })
+                    .expect("spawn")
+            })
+            .collect();
+        all.push(handles.into_iter().map(|h| h.join().unwrap_or_else(|_| Err("thread-died".into()))).collect());
+    }
+    all
+}
+
+fn finish(jobs: &[(String, bool)], classes: Vec<String>, cx: &Cx) -> CaseResult {
+    let key = jobs.iter().map(|(s, _)| s.as_str()).collect::<Vec<_>>().join("\u{1}");
+    let hash = hash64(key.as_bytes());
+    let direct = json!({"jobs": jobs.iter().map(|(s, sc)| json!({"text": s, "sched": sc})).collect::<Vec<_>>()});
+    if cx.dry {
+        let mut r = CaseResult::discard("dry");
+        r.render = Some(direct.clone());
+        r.direct = Some(direct);
+        return r;
+    }
+    let alone: Vec<Result<String, String>> = jobs.iter().map(|(s, sc)| solo(s, *sc)).collect();
+    let rounds = together(jobs, 2);
+    let mut bad: Option<(usize, String)> = None;
+    'o: for r in &rounds {
+        for (i, x) in r.iter().enumerate() {
+            if *x != alone[i] {
+                bad = Some((i, format!("job {i}: alone {:?}, concurrently {:?}", short(&alone[i]), short(x))));
+                break 'o;
+            }
+        }
+    }
+    let mut r = CaseResult::held(hash);
+    let mut flaky = false;
+    if let Some((i, msg)) = bad {
+        // a verdict only if it reproduces on 3 of 3 further attempts
+        let again = together(jobs, 3);
+        let repro = again.iter().all(|r| r.iter().enumerate().any(|(k, x)| *x != alone[k]));
+        // and the solo result itself must be stable
+        let alone2: Vec<Result<String, String>> = jobs.iter().map(|(s, sc)| solo(s, *sc)).collect();
+        if alone2 != alone {
+            return CaseResult::discard("solo-result-not-deterministic"); // C15's subject
+        }
+        if repro {
+            let kind = match (&alone[i], &rounds[0][i]) {
+                (_, Err(e)) if e.contains("poison") => "poisoned-lock",
+                (_, Err(_)) => "panic-only-when-concurrent",
+                _ => "result-contaminated",
+            };
+            r = CaseResult::fail(hash, format!("c19:{kind}"), msg);
+        } else {
+            flaky = true;
+        }
+    }
+    r.classes = classes;
+    r.classes.push(format!("jobs:{}", jobs.len()));
+    if flaky {
+        r.classes.push("flaky-inconclusive".into());
+        r.count("flaky_inconclusive", 1);
+    }
+    let distinct = jobs.iter().map(|(s, _)| s.as_str()).collect::<std::collections::BTreeSet<_>>().len();
+    if distinct < jobs.len() {
+        r.classes.push("identical-sources".into());
+    }
+    if alone.iter().any(|a| a.is_ok()) {
+        r.classes.push("some-job-compiles".into());
+    }
+    r.nontrivial = jobs.len() >= 2 && alone.iter().filter(|a| a.is_ok()).count() >= 2 || r.is_fail();
+    if cx.render || r.is_fail() {
+        r.render = Some(json!({"jobs": jobs.iter().map(|(s, _)| s.chars().take(300).collect::<String>()).collect::<Vec<_>>()}));
+    }
+    r.direct = Some(direct);
+    r
+}
+
+fn short(r: &Result<String, String>) -> String {
+    match r {
+        Ok(d) => format!("ok:{:016x}", hash64(d.as_bytes())),
+        Err(e) => format!("panic:{e}"),
+    }
+}
+
+impl Prop for C19 {
+    fn id(&self) -> &'static str {
+        "C19"
+    }
+    fn spaces(&self, tier: Tier) -> Vec<Space> {
+        match tier {
+            Tier::Quick => vec![Space { name: "stress", size: 160, exhaustive: false, chunk: 20, case_timeout_s: 300.0, what: "K=2..6 compile+run jobs (generated, shipped incl. macro/module programs, identical and near-identical sources, failing programs) started together on K threads, 2 rounds each" }],
+            Tier::Thorough => vec![Space { name: "stress", size: 6000, exhaustive: false, chunk: 40, case_timeout_s: 300.0, what: "K=2..6 concurrent compile+run jobs, 2 rounds each" }],
+        }
+    }
+    fn run(&self, _space: &str, _index: u64, g: &mut Gen, cx: &Cx) -> CaseResult {
+        let k = g.int(2, 6) as usize;
+        let (cfg, _) = c01::pcfg(cx);
+        let mut jobs: Vec<(String, bool)> = vec![];
+        let mut classes = vec![];
+        for _ in 0..k {
+            match g.weighted(&[4, 4, 2, 1, 1]) {
+                0 => {
+                    let mut pg = PG::new(g, cfg.clone());
+                    let p = pg.program();
+                    jobs.push((prog::render(&p, &Layout::default()), false));
+                    classes.push("job:generated".to_string());
+                }
+                1 => {
+                    let c = tg::corpus();
+                    let usable: Vec<&(String, String)> = c.iter().filter(|(p, s)| !s.contains("Sampler") && !s.contains("midi") && !s.contains("Slider") && !s.contains("Probe") && !p.contains("/examples/") && !s.contains("include")).collect();
+                    let (_, s) = usable[g.usize_below(usable.len())];
+                    let sched = s.contains('@') || s.contains("_mimium_schedule_at");
+                    if s.contains("#stage") {
+                        classes.push("job:macro".to_string());
+                    }
+                    jobs.push((s.clone(), sched));
+                    classes.push("job:shipped".to_string());
+                }
+                2 if !jobs.is_empty() => {
+                    let j = jobs[g.usize_below(jobs.len())].clone();
+                    jobs.push(j);
+                    classes.push("job:duplicate".to_string());
+                }
+                3 if !jobs.is_empty() => {
+                    let (s, sc) = jobs[g.usize_below(jobs.len())].clone();
+                    jobs.push((s.replacen("1.0", "2.0", 1), sc));
+                    classes.push("job:near-duplicate".to_string());
+                }
+                _ => {
+                    jobs.push((tg::soup(g, 10), false));
+                    classes.push("job:broken".to_string());
+                }
+            }
+        }
+        classes.sort();
+        classes.dedup();
+        finish(&jobs, classes, cx)
+    }
+    fn run_direct(&self, input: &Value, cx: &Cx) -> Option<CaseResult> {
+        let jobs: Vec<(String, bool)> = input.get("jobs")?.as_array()?.iter().filter_map(|j| Some((j.get("text")?.as_str()?.to_string(), j.get("sched").and_then(|v| v.as_bool()).unwrap_or(false)))).collect();
+        if jobs.is_empty() {
+            return None;
+        }
+        Some(finish(&jobs, vec![], cx))
+    }
+    fn shrink_direct(&self, input: &Value) -> Vec<Value> {
+        let mut out = vec![];
+        if let Some(js) = input.get("jobs").and_then(|v| v.as_array()) {
+            if js.len() > 2 {
+                for i in 0..js.len() {
+                    let mut v = js.clone();
+                    v.remove(i);
+                    out.push(json!({"jobs": v}));
+                }
+            }
+        }
+        out
+    }
+    fn rule(&self) -> String {
+        "Cases are sets of K=2..6 jobs; a job compiles a source for both backends and runs 8 samples on both runtimes (artefacts: bytecode listing, WASM bytes, state layouts, I/O channels, outputs; diagnostics or a panic signature for failing programs). Sources: generated programs, shipped sources (incl. programs with macros, which set the process environment variable, and modules), exact duplicates, near-duplicates differing in one literal, and broken texts. Each job is first run alone; then all jobs are started together on K OS threads behind a barrier, twice. Oracle: every job's artefacts equal its solo artefacts; no panic that does not also occur alone. A difference is reported only if it reproduces on 3 of 3 further concurrent attempts (otherwise it is counted as flaky-inconclusive). Non-trivial = at least two jobs that compile.".into()
+    }
+    fn assumptions(&self) -> Vec<String> {
+        vec![
+            "interleavings are whatever the OS scheduler produces on this machine: the harness does not own the schedule, so a rare interleaving can be missed and a difference that does not reproduce 3 times is not reported".into(),
+            "deadlocks would show as a case hitting the 300 s limit, which this property treats as inconclusive".into(),
+        ]
+    }
+    fn required_classes(&self, _tier: Tier) -> Vec<&'static str> {
+        vec!["job:generated", "job:shipped", "job:macro", "job:duplicate", "job:broken", "some-job-compiles", "identical-sources"]
+    }
 }
